@@ -186,6 +186,30 @@ def pAddrSpec : P String := do
   pEnd
   pure (boolStr (decide (AddrOk base size rs)))
 
+open VelaVerif.WeightSpec in
+/-- `wl_addrmatch base hasBuf buf depth nR ranges.. nW (a l).. nS (a l).. hasDma sa sl da dl` :
+    do the address ranges handed to the command stream generator equal the Spec's expectation -/
+def pAddrMatch : P String := do
+  let base ← pNat
+  let hasBuf ← pBool
+  let buf ← pNat
+  let depth ← pNat
+  let rs ← pList pARange
+  let ws ← pList (do let a ← pNat; let l ← pNat; pure (a, l))
+  let bs ← pList (do let a ← pNat; let l ← pNat; pure (a, l))
+  let hasDma ← pBool
+  let sa ← pNat; let sl ← pNat; let da ← pNat; let dl ← pNat
+  pEnd
+  let (ew, eb, ed) := expectedAddrs base (if hasBuf then some buf else none) rs depth
+  let fw := if ws == ew then "" else " weights"
+  let fb := if bs == eb then "" else " scales"
+  let fd := match ed, hasDma with
+    | some (s, d), true => if s == (sa, sl) ∧ (d == (da, dl) ∨ !hasBuf) then "" else " dma"
+    | none, false => ""
+    | _, _ => " dma-presence"
+  let f := fw ++ fb ++ fd
+  pure (if f.isEmpty then "ok" else "fail" ++ f)
+
 /-! #### wl_cache : outcome (miss / hit / weights-only hit) of a request sequence -/
 
 def pReqKeys : P Req := do
@@ -250,6 +274,7 @@ def handle : List String → Option String
   | "wl_spec" :: rest => some ((run pSpec rest).getD "err:parse")
   | "wl_addr" :: rest => some ((run pAddr rest).getD "err:parse")
   | "wl_addrspec" :: rest => some ((run pAddrSpec rest).getD "err:parse")
+  | "wl_addrmatch" :: rest => some ((run pAddrMatch rest).getD "err:parse")
   | "wl_cache" :: rest => some ((run pCache rest).getD "err:parse")
   | "wl_same" :: rest => some ((run pSame rest).getD "err:parse")
   | "wl_reqdiff" :: rest => some ((run pReqDiff rest).getD "err:parse")
